@@ -123,12 +123,17 @@ def c06_jobs(tier, seed):
                                                 GenSeed=(seed * 131 + k * 17 + 7) % 30011,
                                                 NRandom=40 if q else 60, RandMaxN=700 if q else 1100),
                               "InitGen", "NextRandom", ["InvDerived", "InvBig", "InvCodec"], "EmitCase"), 1, 6000, True))
+    # 5. per-index functions at huge list sizes (2^16 +- 1, 2^24 +- 1, 2^24 + 2^16 + 257, 2^31 - 1, random up to 2^31):
+    #    positions beyond 2^24, i.e. a window number with a non-zero third byte in the pre-image
+    jobs.append(("bigidx", cfg_text({"GenSeed": (seed * 37 + 11) % 30011, "NRandom": 2 if q else 8,
+                                     "Rounds": tla_set([1, 2] if q else [1, 2, 3]), "Emit": "TRUE"},
+                                    "Init", "Next", ["Inv"]), 1, 6000, True))
     return jobs
 
 
 def run_shuffle_job(job):
     name, cfg, workers, timeout, emits = job
-    res = tlc_model_run("MC_Shuffle", cfg, name, workers, timeout)
+    res = tlc_model_run("MC_ShuffleIdx" if name.startswith("bigidx") else "MC_Shuffle", cfg, name, workers, timeout)
     cases = parse_cases(res.out) if emits else []
     if emits and not cases:
         raise lib.InfraError("generator %s produced no case" % name)
@@ -179,6 +184,18 @@ def shuffle_plan(tier, seed):
             if r == 255 and q and n not in (0, 1, 2, 257, 513):
                 continue
             plan.append(item(n, r))
+    # per-index functions at huge list sizes (only PermuteIndex / UnpermuteIndex of a few indices)
+    T24 = 1 << 24
+    big = [65535, 65537, T24 - 1, T24 + 1, T24 + 65536 + 257, 2 ** 31 - 1]
+    big += [rng.randrange(T24, 2 ** 31) for _ in range(2 if q else 12)]
+    for n in big:
+        base = {0, 1, n - 1, n - 2, n // 2, T24, T24 + 255, T24 + 256, T24 + 65536 + 257, n - 1 - T24}
+        base |= {rng.randrange(n) for _ in range(4)}
+        idx = sorted(x for x in base if 0 <= x < n)
+        for r in ((1, 3, 10) if q else (1, 2, 3, 10, 90, 255)):
+            it = item(0, r)
+            it.update({"n": n, "indices": idx})
+            plan.append(it)
     if not q:
         for n in range(5, top, 37):
             plan.append(item(n, 255))
@@ -298,6 +315,16 @@ def c06_spec_to_code(tier, seed, cov, binary=None):
     nontrivial = 0
     for c in allcases:
         n, piv = c["n"], c["piv"]
+        if c.get("indices"):          # per-index case at a huge list size
+            cls["per_index_huge_list"] += 1
+            if c["maxwin"] >= 65536:
+                cls["per_index_window_ge_2_16"] += 1
+            d = lib.digest([n, c["rounds"], c["indices"], c["perm"]])
+            if d not in distinct:
+                distinct.add(d)
+                if c["perm"] != c["indices"]:
+                    nontrivial += 1
+            continue
         if n in (0, 1):
             cls["n_0_1"] += 1
         if 255 <= n <= 258:
@@ -322,7 +349,7 @@ def c06_spec_to_code(tier, seed, cov, binary=None):
     cov["distinct_nontrivial"] += nontrivial
     cov["distinct_behaviours"] += len(distinct)
     for k in ("n_0_1", "n_around_256", "n_around_512", "n_around_mult_of_8", "pivot_0", "pivot_last",
-              "pivot_at_window_edge", "rounds_ge_2"):
+              "pivot_at_window_edge", "rounds_ge_2", "per_index_huge_list", "per_index_window_ge_2_16"):
         if cls[k] == 0:
             raise lib.InfraError("vacuity guard: no replayed case of class %s" % k)
     if res["mismatches"]:
@@ -336,12 +363,14 @@ def c06_spec_to_code(tier, seed, cov, binary=None):
         viol.append(("cases", payload, msg))
     else:
         cov["traces_validated_against_impl"] += res["cases"]
-    cov["samples"] += [{"n": c["n"], "rounds": c["rounds"], "piv": c["piv"], "perm": c["perm"][:12]}
-                       for c in allcases[1000:1003] + allcases[-2:]]
+    cov["samples"] += [{"n": c["n"], "rounds": c["rounds"], "piv": c["piv"], "indices": (c.get("indices") or [])[:12],
+                        "perm": c["perm"][:12]} for c in allcases[1000:1003] + allcases[-2:]]
     return viol
 
 
 def event_weight(line):
+    if line.startswith('{"ev":"ShuffleIdx"'):
+        return 50 + len(line) // 20
     m = re.search(r'"n":(\d+),"rounds":(\d+)', line)
     return 50 + int(m.group(1)) * (int(m.group(2)) + 2) if m else len(line)
 
@@ -362,7 +391,14 @@ def c06_code_to_spec(tier, seed, cov, binary=None, plan=None):
     rounds = {p["rounds"] for p in plan}
     cov["trace_sizes"] = "%d distinct sizes, %d..%d" % (len(sizes), min(sizes), max(sizes))
     cov["trace_round_counts"] = sorted(rounds)
-    cov["evaluations"] += sum(2 + 2 * p["n"] for p in plan)
+    cov["evaluations"] += sum(3 * len(p["indices"]) if p.get("indices") else 2 + 2 * p["n"] for p in plan)
+    tcls = cov.setdefault("trace_classes", {})
+    for l in lines:
+        if l.startswith('{"ev":"ShuffleIdx"'):
+            e = json.loads(l)
+            tcls["per_index_huge_list"] = tcls.get("per_index_huge_list", 0) + 1
+            if any(w[0][1] >= 65536 for w in e["hw"]):
+                tcls["per_index_window_ge_2_16"] = tcls.get("per_index_window_ge_2_16", 0) + 1
     viol = []
     if rejected:
         for idx in rejected[:3]:
@@ -379,6 +415,8 @@ def c06_code_to_spec(tier, seed, cov, binary=None, plan=None):
             raise lib.InfraError("vacuity guard: recorded trace does not cover every size 0..600")
         if len(plan) > 100 and not {0, 1, 2, 3, 10, 90, 255} <= rounds:
             raise lib.InfraError("vacuity guard: recorded trace misses a round count of the quantifier")
+        if len(plan) > 100 and not tcls.get("per_index_window_ge_2_16"):
+            raise lib.InfraError("vacuity guard: no recorded per-index event with a position window >= 2^16")
     return viol
 
 
@@ -483,6 +521,11 @@ def c07_model_jobs(tier, seed):
                      cfg_text({"MinV": 1, "TwoStatus": "FALSE", "MaxV": 10 + 2 * (k % 4) if q else 10 + 3 * (k % 8),
                                "GenSeed": (seed * 271 + k * 31 + 5) % 30011, "NCases": 3 if q else 4, "Emit": "TRUE"},
                               "InitB", "NextB", ["InvB"]), 2, 6000, True))
+    # long rejection runs: the first 33 / 40 / 65 sampling bytes are 255 (rejected by every balance below the maximum),
+    # small registries, proposer of every slot and sync committee
+    jobs.append(("reject-runs",
+                 cfg_text({"MinV": 1, "TwoStatus": "FALSE", "MaxV": 7, "GenSeed": (seed * 53 + 3) % 30011,
+                           "NCases": 3 if q else 10, "Emit": "TRUE"}, "InitC", "NextC", ["InvC"]), 2, 6000, True))
     return jobs
 
 
@@ -538,6 +581,11 @@ def c07_spec_to_code(tier, seed, cov, binary=None):
             cls["proposer_two_rejections"] += 1
         if f["syncIters"] > c["P"]["SYNC_COMMITTEE_SIZE"]:
             cls["sync_candidate_rejected"] += 1
+        for lim in (33, 65):
+            if max(f["propIters"]) > lim:
+                cls["proposer_sampling_loop_ge_%d_iterations" % lim] += 1
+            if f["syncIters"] - c["P"]["SYNC_COMMITTEE_SIZE"] >= lim:
+                cls["sync_sampling_loop_ge_%d_rejections" % lim] += 1
         if len(set(c["sync"])) < len(c["sync"]):
             cls["sync_duplicate_member"] += 1
         if any(cnt > 1 for cnt in c["counts"]):
@@ -556,7 +604,9 @@ def c07_spec_to_code(tier, seed, cov, binary=None):
     cov["evaluations"] += res["cases"] * 4
     for k in ("proposer_first_candidate_rejected", "proposer_two_rejections", "sync_candidate_rejected",
               "several_committees_per_slot", "committee_sizes_differ", "unequal_effective_balances",
-              "byte_at_exact_acceptance_boundary"):
+              "byte_at_exact_acceptance_boundary", "proposer_sampling_loop_ge_33_iterations",
+              "proposer_sampling_loop_ge_65_iterations", "sync_sampling_loop_ge_33_rejections",
+              "sync_sampling_loop_ge_65_rejections"):
         if cls[k] == 0:
             raise lib.InfraError("vacuity guard: no TLC-generated case of class %s" % k)
     viol = []
